@@ -191,3 +191,15 @@ func harnessC15ValueAndPointerTogether() {
 	vAssert(gotPtr == 1, "typed-replay-subscription-matches-stored-name")
 	vCover("checked")
 }
+
+// evEmb embeds a named event: the promoted EventTypeName is its name as well.
+type evEmb struct {
+	evNamed
+	X int `json:"x"`
+}
+
+//verif:entry property=C15 tier=both bounds="shape: a struct that embeds a type with EventTypeName (the promoted method names it), arbitrary custom name" cover="checked"
+func harnessC15EmbeddedNamed() {
+	evNamedName = c15Name()
+	c15Check(evEmb{evNamed: evNamed{N: vInt(-3, 3)}, X: 1}, 1)
+}
